@@ -193,6 +193,12 @@ enum Unit {
         /// alternative: the inner text of the (nested) block whose first statement starts with this string
         #[serde(default)]
         block_from: String,
+        /// the function sits in `impl <of_trait> for <self_ty>` (default: an inherent impl; `self_ty` empty: a free fn)
+        #[serde(default)]
+        of_trait: String,
+        /// tail expression appended after the lifted text, `{}` = the value of the lifted block
+        #[serde(default)]
+        ret_wrap: String,
         /// `impl<'a> JoinOutput<'a>`
         header: String,
         /// text between `fn` and the body: `name<T>(&self, a: A) -> R`
@@ -1735,6 +1741,64 @@ impl<'a> Rw<'a> {
                 self.insert_open(body_start + 1, format!(" {} ", ls.body_prologue));
             }
         }
+    }
+}
+
+/// R15: byte range of the text to lift out of a function body: the inner text of the (nested) block whose first
+/// statement starts with `block_from`, or the statements from the one starting with `stmts_from` to the end, or the
+/// body of the k-th closure (source order)
+fn find_lift_range(text: &str, block: &syn::Block, block_from: &str, stmts_from: &str, closure: usize) -> Option<(usize, usize)> {
+    struct Find {
+        k: usize,
+        want: usize,
+        out: Option<(usize, usize)>,
+    }
+    impl<'ast> Visit<'ast> for Find {
+        fn visit_expr_closure(&mut self, c: &'ast syn::ExprClosure) {
+            if self.k == self.want {
+                self.out = Some(br(c.body.span()));
+            }
+            self.k += 1;
+            syn::visit::visit_expr_closure(self, c);
+        }
+    }
+    struct FindBlock<'t> {
+        text: &'t str,
+        from: &'t str,
+        out: Option<(usize, usize)>,
+    }
+    impl<'ast, 't> Visit<'ast> for FindBlock<'t> {
+        fn visit_block(&mut self, b: &'ast syn::Block) {
+            if self.out.is_none() {
+                if let Some(st) = b.stmts.first() {
+                    let (ss, _) = br(st.span());
+                    if self.text[ss..].starts_with(self.from) {
+                        let (_, be) = br(b.span());
+                        self.out = Some((ss, be - 1));
+                        return;
+                    }
+                }
+            }
+            syn::visit::visit_block(self, b);
+        }
+    }
+    if !block_from.is_empty() {
+        let mut fb = FindBlock { text, from: block_from, out: None };
+        fb.visit_block(block);
+        fb.out
+    } else if !stmts_from.is_empty() {
+        let (_, blk_e) = br(block.span());
+        for st in &block.stmts {
+            let (ss, _) = br(st.span());
+            if text[ss..].starts_with(stmts_from) {
+                return Some((ss, blk_e - 1));
+            }
+        }
+        None
+    } else {
+        let mut fd = Find { k: 0, want: closure, out: None };
+        fd.visit_block(block);
+        fd.out
     }
 }
 
@@ -3488,6 +3552,8 @@ fn main() {
                 closure,
                 stmts_from,
                 block_from,
+                of_trait,
+                ret_wrap,
                 header,
                 sig,
                 spec,
@@ -3498,8 +3564,14 @@ fn main() {
                     collect_items(&src.file.items, &mut items);
                     let mut found: Option<(usize, usize)> = None;
                     for it in &items {
+                        if let syn::Item::Fn(f) = it {
+                            if self_ty.is_empty() && f.sig.ident == func.as_str() && !skip_by_cfg(&f.attrs) {
+                                found = find_lift_range(&src.text, &f.block, block_from, stmts_from, *closure);
+                            }
+                        }
                         if let syn::Item::Impl(im) = it {
-                            if im.trait_.is_some() || last_seg(&im.self_ty) != *self_ty || skip_by_cfg(&im.attrs) {
+                            let tr = im.trait_.as_ref().map(|(_, p, _)| p.segments.last().unwrap().ident.to_string()).unwrap_or_default();
+                            if tr != *of_trait || last_seg(&im.self_ty) != *self_ty || skip_by_cfg(&im.attrs) {
                                 continue;
                             }
                             for ii in &im.items {
@@ -3507,58 +3579,7 @@ fn main() {
                                     if f.sig.ident != func.as_str() || skip_by_cfg(&f.attrs) {
                                         continue;
                                     }
-                                    struct Find {
-                                        k: usize,
-                                        want: usize,
-                                        out: Option<(usize, usize)>,
-                                    }
-                                    impl<'ast> Visit<'ast> for Find {
-                                        fn visit_expr_closure(&mut self, c: &'ast syn::ExprClosure) {
-                                            if self.k == self.want {
-                                                self.out = Some(br(c.body.span()));
-                                            }
-                                            self.k += 1;
-                                            syn::visit::visit_expr_closure(self, c);
-                                        }
-                                    }
-                                    struct FindBlock<'t> {
-                                        text: &'t str,
-                                        from: &'t str,
-                                        out: Option<(usize, usize)>,
-                                    }
-                                    impl<'ast, 't> Visit<'ast> for FindBlock<'t> {
-                                        fn visit_block(&mut self, b: &'ast syn::Block) {
-                                            if self.out.is_none() {
-                                                if let Some(st) = b.stmts.first() {
-                                                    let (ss, _) = br(st.span());
-                                                    if self.text[ss..].starts_with(self.from) {
-                                                        let (_, be) = br(b.span());
-                                                        self.out = Some((ss, be - 1));
-                                                        return;
-                                                    }
-                                                }
-                                            }
-                                            syn::visit::visit_block(self, b);
-                                        }
-                                    }
-                                    if !block_from.is_empty() {
-                                        let mut fb = FindBlock { text: &src.text, from: block_from.as_str(), out: None };
-                                        fb.visit_block(&f.block);
-                                        found = fb.out;
-                                    } else if !stmts_from.is_empty() {
-                                        let (_, blk_e) = br(f.block.span());
-                                        for st in &f.block.stmts {
-                                            let (ss, _) = br(st.span());
-                                            if src.text[ss..].starts_with(stmts_from.as_str()) {
-                                                found = Some((ss, blk_e - 1));
-                                                break;
-                                            }
-                                        }
-                                    } else {
-                                        let mut fd = Find { k: 0, want: *closure, out: None };
-                                        fd.visit_block(&f.block);
-                                        found = fd.out;
-                                    }
+                                    found = find_lift_range(&src.text, &f.block, block_from, stmts_from, *closure);
                                 }
                             }
                         }
@@ -3567,6 +3588,11 @@ fn main() {
                         Some((bs, be)) => (src.text[bs..be].to_string(), line_of(&src.text, bs), line_of(&src.text, be)),
                         None => die(&mut log, &log_path, format!("lost anchor: closure {} of {}::{} in {}", closure, self_ty, func, file)),
                     }
+                };
+                let body_text = if ret_wrap.is_empty() { body_text } else {
+                    // the lifted text is an expression block that also assigns captured locals: its value and those
+                    // locals are handed back together (`ret_wrap` is the tail expression, `{}` stands for the block's value)
+                    format!("let __blk = {{\n{}\n}};\n{}", body_text, ret_wrap.replace("{}", "__blk"))
                 };
                 let synth_text = format!("{} {{\nfn {} {{\n{}\n}}\n}}\n", header, sig, body_text);
                 let parsed = match syn::parse_file(&synth_text) {
